@@ -156,8 +156,8 @@ impl SliceGroup {
         num_slice_groups_minus1: u32,
         seq_parameter_set: &SeqParameterSet,
     ) -> Result<Vec<SliceRect>, PpsError> {
-        let mut run_length_minus1 = Vec::with_capacity(num_slice_groups_minus1 as usize + 1);
-        for _ in 0..num_slice_groups_minus1 + 1 {
+        let mut run_length_minus1 = Vec::with_capacity(num_slice_groups_minus1 as usize);
+        for _ in 0..num_slice_groups_minus1 {
             run_length_minus1.push(SliceRect::read(r, seq_parameter_set)?);
         }
         Ok(run_length_minus1)
